@@ -44,6 +44,7 @@ type tMode struct {
 	Exdev   bool     `json:"exdev"`   // staged renames answer EXDEV (staging on another device)
 	Owner   bool     `json:"owner"`   // a default owner/group is configured
 	Missing []string `json:"missing"` // root-relative paths whose staged file does not exist
+	Rn2     string   `json:"rn2"`     // "" | "enosys" | "enotsup": renameat2(RENAME_NOREPLACE) is unavailable for the whole run
 }
 
 type tCase struct {
@@ -66,7 +67,7 @@ func (tc *tCase) in() map[string]any {
 		"shape":  tc.Shape,
 		"tree0":  encNode(tc.Tree0),
 		"target": encNode(tc.Target),
-		"mode":   map[string]any{"exdev": tc.Mode.Exdev, "owner": tc.Mode.Owner, "missing": paths(miss)},
+		"mode":   map[string]any{"exdev": tc.Mode.Exdev, "owner": tc.Mode.Owner, "missing": paths(miss), "rn2": tc.Mode.Rn2},
 		"edits":  edits,
 		"fault":  map[string]any{"kind": tc.Fault.Kind, "index": tc.Fault.Index},
 	}
@@ -96,6 +97,7 @@ func caseFromIn(in map[string]any) *tCase {
 	if m, ok := in["mode"].(map[string]any); ok {
 		tc.Mode.Exdev, _ = m["exdev"].(bool)
 		tc.Mode.Owner, _ = m["owner"].(bool)
+		tc.Mode.Rn2, _ = m["rn2"].(string)
 		var miss [][]string
 		vlib.Decode(m["missing"], &miss)
 		for _, p := range miss {
@@ -435,6 +437,15 @@ func runCase(scratch string, tc *tCase) map[string]any {
 				}
 			}
 		}
+		// renameat2 unavailable: the wrapper answers ENOSYS, or ENOTSUP (what it
+		// turns the kernel's EINVAL into; the hook sits before that aliasing), so
+		// filesystem.Rename takes its probe-then-renameat fallback
+		if op == "renameat2" && tc.Mode.Rn2 == "enosys" {
+			return syscall.ENOSYS
+		}
+		if op == "renameat2" && tc.Mode.Rn2 == "enotsup" {
+			return syscall.ENOTSUP
+		}
 		if tc.Mode.Exdev && (op == "renameat" || op == "renameat2") && strings.HasPrefix(name, stagedPrefix) {
 			return syscall.EXDEV
 		}
@@ -587,8 +598,9 @@ func planCreates(plan []*core.Change, kind core.EntryKind) bool {
 	return false
 }
 
-// baseCases enumerates (tree0, target, exdev, owner) exactly as Init of
-// FSTransition.tla does for the shape.
+// baseCases enumerates the (tree0, target) pairs of the shape that need a
+// transition, as Init of FSTransition.tla does; configurations (exdev, owner,
+// renameat2 availability) are added by sweepConfigs / the C08 job builder.
 func baseCases(shape string) []*tCase {
 	disk, target := shapeTrees(shape)
 	var out []*tCase
@@ -598,19 +610,7 @@ func baseCases(shape string) []*tCase {
 			if len(plan) == 0 {
 				continue
 			}
-			exdevs := []bool{false}
-			if planCreates(plan, core.EntryKind_File) {
-				exdevs = []bool{false, true}
-			}
-			owners := []bool{false}
-			if planCreates(plan, core.EntryKind_SymbolicLink) {
-				owners = []bool{false, true}
-			}
-			for _, x := range exdevs {
-				for _, o := range owners {
-					out = append(out, &tCase{Shape: shape, Tree0: d, Target: t, Mode: tMode{Exdev: x, Owner: o}, Fault: fault{Kind: "none"}})
-				}
-			}
+			out = append(out, &tCase{Shape: shape, Tree0: d, Target: t, Fault: fault{Kind: "none"}})
 		}
 	}
 	return out
@@ -714,7 +714,16 @@ func faultSweep(scratch string, jb *job, emit func(rec map[string]any, nontrivia
 	emit(rec, false, true, false)
 	n := rec["nops"].(int)
 	staged := stagedFilesOf(tc)
+	var opNames []string
+	vlib.Decode(rec["ops"], &opNames)
+	only := map[string]bool{}
+	for _, o := range jb.OnlyOps {
+		only[o] = true
+	}
 	for k := 1; k <= n; k++ {
+		if len(only) > 0 && (k > len(opNames) || !only[opNames[k-1]]) {
+			continue
+		}
 		r := runCase(scratch, withFault(tc, "error", k))
 		emit(r, r["fired"].(bool), false, k == 1+jb.Off%n)
 		if jb.CancelStride > 0 && (k+jb.Off)%jb.CancelStride == 0 {
@@ -848,8 +857,47 @@ func runFaults(c *vlib.Ctx) error {
 	}
 	var jobs []*job
 	total := 0
+	ownerOps := []string{"fchownat", "fchmod"}
+	renameOps := []string{"renameat2", "fstatat", "renameat", "unlinkat", "fchownat", "fchmod"}
+	// add queues the sweeps of one (tree0, target) pair over the configurations
+	// (exdev, owner, renameat2 availability). Thorough: exdev x owner with all
+	// injected kinds at every index, and the renameat2-unavailable variants with
+	// an error at every index. Quick: the two exdev configurations in full, and the
+	// owner / renameat2-unavailable configurations with an error at every primitive
+	// they add or change (ownership, mode, rename, probe, clean-up primitives).
 	add := func(tc *tCase) {
-		jobs = append(jobs, &job{Kind: "sweep", In: tc.in(), CancelStride: cancelStride, VanishStride: vanishStride, Off: c.Rand.Intn(1 << 20)})
+		plan := planFor("", tc.Tree0, tc.Target)
+		files := planCreates(plan, core.EntryKind_File)
+		sweep := func(x, o bool, rn2 string, cs, vs int, only []string) {
+			cp := *tc
+			cp.Mode = tMode{Exdev: x, Owner: o, Rn2: rn2}
+			jobs = append(jobs, &job{Kind: "sweep", In: cp.in(), CancelStride: cs, VanishStride: vs, Off: c.Rand.Intn(1 << 20), OnlyOps: only})
+		}
+		exdevs := []bool{false}
+		if files {
+			exdevs = []bool{false, true}
+		}
+		if c.Thorough() {
+			for _, x := range exdevs {
+				sweep(x, false, "", cancelStride, vanishStride, nil)
+				sweep(x, true, "", cancelStride, vanishStride, nil)
+				if files {
+					sweep(x, false, "enosys", 0, 0, nil)
+				}
+			}
+			if files {
+				sweep(false, true, "enotsup", 0, 0, nil)
+			}
+			return
+		}
+		for _, x := range exdevs {
+			sweep(x, false, "", cancelStride, vanishStride, nil)
+		}
+		sweep(false, true, "", 0, 0, ownerOps)
+		if files {
+			sweep(true, true, "enotsup", 0, 0, renameOps)
+			sweep(false, false, "enosys", 0, 0, renameOps)
+		}
 	}
 	var names []string
 	for _, sh := range shapes {
@@ -954,9 +1002,32 @@ func covered(tc *tCase, e edit) bool {
 }
 
 func editJob(c *vlib.Ctx, tc *tCase, es []edit) *job {
+	return editJobMode(c, tc, es, tMode{})
+}
+
+// editJobs queues an edit case under the configurations that matter for it: the
+// given owner setting, and - when something appears at a path where the plan
+// creates content - also with renameat2 unavailable (ENOSYS / ENOTSUP, with and
+// without a cross-device staging directory), where the non-replacing rename
+// falls back to probe-then-renameat.
+func editJobs(c *vlib.Ctx, tc *tCase, es []edit, owner bool) []*job {
+	out := []*job{editJobMode(c, tc, es, tMode{Owner: owner})}
+	for _, e := range es {
+		if strings.HasPrefix(e.Op, "create") {
+			out = append(out,
+				editJobMode(c, tc, es, tMode{Owner: owner, Rn2: "enosys"}),
+				editJobMode(c, tc, es, tMode{Owner: !owner, Rn2: "enotsup"}),
+				editJobMode(c, tc, es, tMode{Owner: owner, Rn2: "enosys", Exdev: true}))
+			break
+		}
+	}
+	return out
+}
+
+func editJobMode(c *vlib.Ctx, tc *tCase, es []edit, mode tMode) *job {
 	cp := *tc
 	cp.Edits = es
-	cp.Mode.Exdev = false
+	cp.Mode = mode
 	nt := false
 	for _, e := range es {
 		if covered(&cp, e) {
@@ -991,13 +1062,15 @@ func runEdits(c *vlib.Ctx) error {
 		tc := &tCase{Shape: "edit", Tree0: nodeFromModel(b["tree0"]), Target: nodeFromModel(b["target"]), Fault: fault{Kind: "none"}}
 		var es []edit
 		vlib.Decode(b["edits"], &es)
-		jb := editJob(c, tc, es)
 		key := caseKey(tc) + fmt.Sprint(es)
 		if seenBeh[key] {
 			continue
 		}
 		seenBeh[key] = true
-		jobs = append(jobs, jb)
+		jobs = append(jobs, editJobs(c, tc, es, false)...)
+		if c.Thorough() {
+			jobs = append(jobs, editJobs(c, tc, es, true)...)
+		}
 	}
 	c.SetExtra("behaviours_replayed", len(seenBeh))
 	for _, sh := range shapes {
@@ -1008,16 +1081,18 @@ func runEdits(c *vlib.Ctx) error {
 		off := c.Rand.Intn(sh.every)
 		n := 0
 		for _, tc := range cases {
-			if tc.Mode.Exdev || tc.Mode.Owner {
-				continue
-			}
 			n++
 			if (n+off)%sh.every != 0 {
 				continue
 			}
 			es := editsFor(tc, modeOps)
 			for _, e := range es {
-				jobs = append(jobs, editJob(c, tc, []edit{e}))
+				// the driver's own enumeration runs with a default owner configured
+				// (the replayed behaviours run without; thorough: both)
+				jobs = append(jobs, editJobs(c, tc, []edit{e}, true)...)
+				if c.Thorough() && sh.name != "two" {
+					jobs = append(jobs, editJobs(c, tc, []edit{e}, false)...)
+				}
 			}
 			if sh.pairs {
 				for i := 0; i < len(es); i++ {
@@ -1033,7 +1108,7 @@ func runEdits(c *vlib.Ctx) error {
 	}
 	for i := 0; i < nRandom; i++ {
 		tc := randomCase(c)
-		tc.Mode.Owner = false
+		rmode := tMode{Owner: c.Rand.Intn(2) == 0, Exdev: c.Rand.Intn(4) == 0, Rn2: []string{"", "", "enosys", "enotsup"}[c.Rand.Intn(4)]}
 		es := editsFor(tc, modeOps)
 		if len(es) == 0 {
 			continue
@@ -1052,7 +1127,7 @@ func runEdits(c *vlib.Ctx) error {
 				chosen = append(chosen, e)
 			}
 		}
-		jobs = append(jobs, editJob(c, tc, chosen))
+		jobs = append(jobs, editJobMode(c, tc, chosen, rmode))
 	}
 	runJobs(c, jobs)
 	c.SetExhaustive(true)
